@@ -264,9 +264,11 @@ fn join_check_delivery(w: &stream_join::World, s0: u64, frames: usize, last_seq_
 }
 
 // session stream: producer = emit_event (session.rs), subscriber = stream_events (server.rs)
+macro_rules! c06_session_join {
+    ($name:ident, $frames:expr, $unwind:expr) => {
 #[kani::proof]
-#[kani::unwind(10)]
-fn c06_session_join_2frames() {
+#[kani::unwind($unwind)]
+fn $name() {
     use stream_join::*;
     let mut w = World::new(SESSION_SUBSCRIBER_STEPS);
     let wp: *mut World = &mut w;
@@ -276,7 +278,7 @@ fn c06_session_join_2frames() {
     let buffer = ModelBuffer(wp);
     let log = ModelLog(wp);
     let mut f = 0u64;
-    while f < 2 {
+    while f < $frames {
         unsafe { (*wp).yield_point() };
         unsafe { (*wp).in_emit = true };
         emit_event_slice(Event { id: ModelId, session_id: ModelId, timestamp_ms: 0, seq: s0 + f, kind: EventKind(0) }, &sender, &buffer, &log);
@@ -286,18 +288,24 @@ fn c06_session_join_2frames() {
     unsafe { (*wp).yield_point() };
     let w = unsafe { &mut *wp };
     w.finish_subscriber();
-    assert!(w.n_sent == 2 && w.n_buf == 2 && w.logged == 2, "a frame was not published, recorded and logged exactly once");
-    join_check_delivery(w, s0, 2, session_last_seq, session_live_frame_dropped);
+    assert!(w.n_sent == $frames && w.n_buf == $frames && w.logged == $frames, "a frame was not published, recorded and logged exactly once");
+    join_check_delivery(w, s0, $frames, session_last_seq, session_live_frame_dropped);
     kani::cover!(w.attached_mid_emit, "subscriber step taken in the middle of an emit");
     kani::cover!(w.n_hist == 1, "attached between the two frames");
     kani::cover!(w.n_hist == 0 && w.sub_from == 0, "attached before the stream started");
-    kani::cover!(w.n_hist == 2 && w.sub_from == 2, "attached after the stream ended");
+    kani::cover!(w.n_hist == $frames && w.sub_from == $frames, "attached after the stream ended");
 }
+    };
+}
+c06_session_join!(c06_session_join_2frames, 2, 10);
+c06_session_join!(c06t_session_join_3frames, 3, 12);
 
 // task stream: producer = TaskEmitter::emit (tasks/mod.rs), subscriber = stream_task_events (server.rs)
+macro_rules! c06_task_join {
+    ($name:ident, $frames:expr, $unwind:expr) => {
 #[kani::proof]
-#[kani::unwind(10)]
-fn c06_task_join_2frames() {
+#[kani::unwind($unwind)]
+fn $name() {
     use stream_join::*;
     let mut w = World::new(TASK_SUBSCRIBER_STEPS);
     let wp: *mut World = &mut w;
@@ -305,7 +313,7 @@ fn c06_task_join_2frames() {
     kani::assume(s0 < u64::MAX - 4);
     let em = ModelTaskEmitter { task_id: ModelId, sender: ModelSender(wp), events: ModelBuffer(wp), seq: ModelSeqMutex(core::cell::UnsafeCell::new(s0), wp), event_log: ModelLog(wp) };
     let mut f = 0u64;
-    while f < 2 {
+    while f < $frames {
         unsafe { (*wp).yield_point() };
         unsafe { (*wp).in_emit = true };
         em.emit_slice(EventKind(0));
@@ -315,12 +323,16 @@ fn c06_task_join_2frames() {
     unsafe { (*wp).yield_point() };
     let w = unsafe { &mut *wp };
     w.finish_subscriber();
-    assert!(w.n_sent == 2 && w.n_buf == 2 && w.logged == 2, "a frame was not published, recorded and logged exactly once");
+    assert!(w.n_sent == $frames && w.n_buf == $frames && w.logged == $frames, "a frame was not published, recorded and logged exactly once");
     assert!(w.sent[0] == s0 && w.sent[1] == s0 + 1, "task frames not numbered contiguously from the counter");
-    join_check_delivery(w, s0, 2, task_last_seq, task_live_frame_dropped);
+    join_check_delivery(w, s0, $frames, task_last_seq, task_live_frame_dropped);
     kani::cover!(w.attached_mid_emit, "subscriber step taken in the middle of an emit");
     kani::cover!(w.n_hist == 1, "attached between the two frames");
 }
+    };
+}
+c06_task_join!(c06_task_join_2frames, 2, 10);
+c06_task_join!(c06t_task_join_3frames, 3, 12);
 
 // task stream with TWO producers (the stdout and stderr pumps, the driver's status frames, ... share one TaskEmitter):
 // the second producer's whole emit is placed by the solver at any yield point of the first one's emit at which the seq
